@@ -66,7 +66,7 @@ pub fn run(ctx: &Ctx, c09: bool) -> (Report, Meta) {
     .thresholds(json!({"root_abs_rel": 1e-11, "bracket_delta": "4e-12 + 8 eps |t|", "state_rounding_factor": 64}));
 
     let n = ctx.size(120_000, 6_000_000);
-    let g = GenOpts { allow_max_step: true, bidirectional_problems: true, max_span: 40.0, ..Default::default() };
+    let g = GenOpts { stiff_for_implicit: true, allow_max_step: true, bidirectional_problems: true, max_span: 40.0, ..Default::default() };
     let rep = par_for(n, prop, |i, rep| {
         let case_id = format!("case/{}", i);
         if !ctx.want(&case_id) {
